@@ -1,5 +1,5 @@
 import NanoVerif.Model.Proto
-import NanoVerif.Model.LSearch
+import NanoVerif.Model.LSearchStep
 /-!
   driver family `ls` (C07): oracle-replay of one call of `lsearchk_t::get`.
 
@@ -7,6 +7,8 @@ import NanoVerif.Model.LSearch
     `run <method> <interp> <max_iterations> <c1> <c2> <safeguard> <tau1> <tau2> <tau3> <delta> <cg-epsilon> <cg-theta>
          <cg-gamma> <cg-ro> <t0> …(what the harness needs to rebuild function, point, direction)… @
          <epsilon0> <epsilon1> <machine-epsilon> <f0> <dg0> <valid0> <n> (<t_k> <f_k> <dg_k> <valid_k>)×n`
+  `Cfg.interp` / `Cfg.cubic` are the formulas RE-TRANSLATED from src/solver/lstep.cpp (`Gen/LsStep.lean` through
+  `Model/LSearchStep.lean`); the formulas used inside `dcstep` / CG_DESCENT are the same ones (`model_lstep_is_generated`).
   The model runs at `Float` against an oracle that answers the `k`-th request with the `k`-th logged evaluation
   (by position; a request beyond the log is answered `(NaN, NaN, invalid)`), and prints
     `<success 0/1> <returned step> <#requests> <requested steps in order>`
@@ -73,7 +75,7 @@ def handle : Toks → Option String
     let arr := answers.toArray
     let φ : Oracle Float := fun k _ => arr.getD k ⟨nan, nan, false⟩
     let cfg : Cfg Float :=
-      { c1, c2, maxIter, fin := Float.isFinite, interp := interpolate Float.isFinite mode, cubic := cubic,
+      { c1, c2, maxIter, fin := Float.isFinite, interp := genInterpolate Float.isFinite mode, cubic := genCubic,
         eps0, eps1, macheps, safeguard, tau1, tau2, tau3, delta, cgEpsilon, cgTheta, cgGamma, cgRo }
     let r := get m cfg φ ⟨f0, dg0, ok0⟩ t0
     let asked := r.ctx.trace.reverse
